@@ -21,12 +21,15 @@ theorem identCont_not_asciiWs {c : Char} (h : isIdentCont c = true) : isAsciiWs 
   | true => rw [asciiWs_not_identCont hw] at h; cases h
 
 theorem headOk_cons {e : List Char} (h : headOk e = true) :
-    ∃ c r, e = c :: r ∧ isAsciiWs c = false ∧ isIdentCont c = false ∧ c ≠ '-' ∧ c ≠ '+' := by
+    ∃ c r, e = c :: r ∧ isAsciiWs c = false := by
   cases e with
   | nil => simp [headOk] at h
   | cons c r =>
-    simp only [headOk, Bool.and_eq_true, Bool.not_eq_true', bne_iff_ne, ne_eq] at h
-    exact ⟨c, r, rfl, h.1.1.1, h.1.1.2, h.1.2, h.2⟩
+    simp only [headOk, Bool.not_eq_true'] at h
+    exact ⟨c, r, rfl, h⟩
+
+theorem headOk_ne {e : List Char} (h : headOk e = true) : e ≠ [] := by
+  obtain ⟨c, r, rfl, _⟩ := headOk_cons h; simp
 
 /-! ### one step of `scanTag` -/
 
@@ -163,7 +166,7 @@ theorem dispatch_digit {c : Char} (h : isDigit c = true) (bal : Int) (r : List C
   simp [q1, q2, h, hr]
 
 theorem dispatch_quote {q : Char} (h : q = '\'' ∨ q = '"') (bal : Int) (r : List Char) :
-    dispatch bal q r = .goto (.str q false) bal false := by
+    dispatch bal q r = .goto (.str q .txt 0) bal false := by
   rcases h with rfl | rfl
   · unfold dispatch
     have : isTwo '\'' r = false := by
@@ -260,51 +263,198 @@ theorem tok_ident {e : List Char} {line : Bool} {bal : Int} (c : Char) (cs rest 
 
 /-! #### strings -/
 
-theorem str_run {e : List Char} {line : Bool} {bal : Int} (q : Char) (hq : q ≠ '\\') (body rest : List Char) :
-    ∀ esc, strBodyOk q esc body = true →
-      scanTag e line (.str q esc) bal (body ++ (q :: rest)) = scanTag e line .top bal rest := by
-  induction body with
-  | nil =>
-    intro esc h
-    cases esc with
-    | true => simp [strBodyOk] at h
-    | false =>
-      simp only [List.nil_append]
-      exact scan_go (by simp [tokCont, hq])
-  | cons c body ih =>
-    intro esc h
-    cases esc with
-    | true =>
-      simp only [strBodyOk, Bool.and_eq_true, Bool.not_eq_true', Bool.or_eq_false_iff, decide_eq_false_iff_not,
-        Bool.and_eq_false_iff] at h
-      rw [List.cons_append, scan_go (m' := .str q false) (by
-        simp only [tokCont, if_true]
-        rw [if_neg]
-        simp only [Bool.or_eq_true, decide_eq_true_eq, Bool.and_eq_true, not_or, not_and]
-        refine ⟨⟨h.1.1.1, h.1.1.2⟩, ?_⟩
-        intro h0
-        rcases h.1.2 with h' | h'
-        · exact absurd h0 (by simpa using h')
-        · simpa using h')]
-      exact ih false h.2
-    | false =>
-      simp only [strBodyOk] at h
-      by_cases hb : c = '\\'
-      · simp only [hb, if_true] at h
-        rw [List.cons_append, scan_go (m' := .str q true) (by simp [tokCont, hb])]
-        exact ih true h
-      · simp only [hb, if_false, Bool.and_eq_true, bne_iff_ne, ne_eq] at h
-        rw [List.cons_append, scan_go (m' := .str q false) (by simp [tokCont, hb, h.1])]
-        exact ih false h.2
+/-- one character inside a string literal -/
+theorem str_go {e : List Char} {line : Bool} {bal : Int} {q : Char} {es es' : Esc} {sur sur' : Nat} {c : Char}
+    {r : List Char} (h : strStep q es sur c = .cont es' sur') :
+    scanTag e line (.str q es sur) bal (c :: r) = scanTag e line (.str q es' sur') bal r :=
+  scan_go (by simp [tokCont, h])
+
+theorem hexDigit_ne_plus {c : Char} (h : isHexDigit c = true) : c ≠ '+' := by
+  rintro rfl; revert h; decide
+
+theorem oct_ne_x {c : Char} (h : isOct c = true) : c ≠ 'x' := by rintro rfl; revert h; decide
+theorem oct_ne_bs {c : Char} (h : isOct c = true) : c ≠ '\\' := by rintro rfl; revert h; decide
+
+/-- the four characters of a `\u` escape -/
+theorem str_u4 {e : List Char} {line : Bool} {bal : Int} (q : Char) (sur : Nat) (a b c d : Char) (v s : Nat)
+    (r : List Char) (hv : hex4 a b c d = some v) (hs : pushU16 sur v = some s) :
+    scanTag e line (.str q (.u 0 0) sur) bal (a :: b :: c :: d :: r) = scanTag e line (.str q .txt s) bal r := by
+  unfold hex4 at hv
+  split at hv
+  · rename_i hh
+    simp only [Bool.and_eq_true, Bool.or_eq_true, decide_eq_true_eq] at hh
+    obtain ⟨⟨⟨ha, hb⟩, hc⟩, hd⟩ := hh
+    have hv' := Option.some.inj hv
+    have nb := hexDigit_ne_plus hb
+    have nc := hexDigit_ne_plus hc
+    have nd := hexDigit_ne_plus hd
+    rw [str_go (es' := .u 1 (if a = '+' then 0 else hexVal a)) (sur' := sur) (by
+      rcases ha with ha | ha
+      · simp [strStep, ha]
+      · simp [strStep, ha])]
+    rw [str_go (es' := .u 2 ((if a = '+' then 0 else hexVal a) * 16 + hexVal b)) (sur' := sur) (by
+      simp [strStep, hb, nb])]
+    rw [str_go (es' := .u 3 (((if a = '+' then 0 else hexVal a) * 16 + hexVal b) * 16 + hexVal c)) (sur' := sur) (by
+      simp [strStep, hc, nc])]
+    exact str_go (by simp [strStep, hd, nd, hv', hs])
+  · cases hv
+
+/-- behind a complete octal escape the next character is read like any other -/
+theorem str_oct_as_txt {e : List Char} {line : Bool} {bal : Int} (q : Char) (k acc : Nat) (c : Char) (r : List Char)
+    (h : (decide (0 < k) && isOct c) = false) :
+    scanTag e line (.str q (.oct k acc) 0) bal (c :: r) = scanTag e line (.str q .txt 0) bal (c :: r) := by
+  have : scanStep e line (.str q (.oct k acc) 0) bal c r = scanStep e line (.str q .txt 0) bal c r := by
+    simp only [scanStep, tokCont, strStep, h, Bool.false_eq_true, if_false]
+  rw [scanTag, scanTag, this]
+
+theorem oct_step (q : Char) (k acc : Nat) (c : Char) (hc : isOct c = true) (hle : acc * 8 + octVal c ≤ 255) :
+    strStep q (.oct (k + 1) acc) 0 c = .cont (.oct k (acc * 8 + octVal c)) 0 := by
+  have hnl : ¬ (255 < acc * 8 + (c.toNat - '0'.toNat)) := by simp only [octVal] at hle; omega
+  simp only [strStep, hc, Nat.zero_lt_succ, decide_true, Bool.and_self, if_true, if_neg hnl, Nat.add_sub_cancel, octVal]
+
+theorem strPlain_text {q c : Char} (h1 : c ≠ '\\') (h2 : c ≠ q) : strPlain q 0 c = .cont .txt 0 := by
+  simp [strPlain, h1, h2]
+
+theorem str_run {e : List Char} {line : Bool} {bal : Int} (q : Char) (hq : q = '\'' ∨ q = '"') (rest : List Char) :
+    ∀ (fuel sur : Nat) (body : List Char), strBodyOkF q fuel sur body = true →
+      scanTag e line (.str q .txt sur) bal (body ++ (q :: rest)) = scanTag e line .top bal rest := by
+  have hq1 : q ≠ '\\' := by rcases hq with rfl | rfl <;> decide
+  have hqo : isOct q = false := by rcases hq with rfl | rfl <;> decide
+  -- the closing quote
+  have hclose : ∀ (es : Esc), (es = .txt ∨ ∃ k acc, es = .oct k acc) →
+      scanTag e line (.str q es 0) bal (q :: rest) = scanTag e line .top bal rest := by
+    intro es hes
+    apply scan_go
+    rcases hes with rfl | ⟨k, acc, rfl⟩
+    · simp [tokCont, strStep, strPlain, hq1]
+    · simp [tokCont, strStep, strPlain, hq1, hqo]
+  intro fuel
+  induction fuel with
+  | zero => intro sur body h; simp [strBodyOkF] at h
+  | succ fuel ih =>
+    have oct_done : ∀ (k acc : Nat) (body : List Char),
+        (k = 0 ∨ ∀ c, body.head? = some c → isOct c = false) → strBodyOkF q fuel 0 body = true →
+        scanTag e line (.str q (.oct k acc) 0) bal (body ++ (q :: rest)) = scanTag e line .top bal rest := by
+      intro k acc body hk hb
+      cases body with
+      | nil => exact hclose _ (Or.inr ⟨_, _, rfl⟩)
+      | cons c r =>
+        have hno : (decide (0 < k) && isOct c) = false := by
+          rcases hk with rfl | hk
+          · simp
+          · simp [hk c rfl]
+        rw [List.cons_append, str_oct_as_txt q k acc c _ hno]
+        exact ih 0 (c :: r) hb
+    intro sur body h
+    cases body with
+    | nil =>
+      simp only [strBodyOkF, beq_iff_eq] at h
+      subst h
+      exact hclose .txt (Or.inl rfl)
+    | cons c r =>
+      simp only [strBodyOkF] at h
+      by_cases hc : c = '\\'
+      · subst hc
+        simp only [if_true] at h
+        cases r with
+        | nil => simp at h
+        | cons d r1 =>
+          simp only [] at h
+          rw [List.cons_append, str_go (es' := .bs) (sur' := sur) (by simp [strStep, strPlain])]
+          by_cases hd : d = 'u'
+          · subst hd
+            simp only [if_true] at h
+            rw [List.cons_append, str_go (es' := .u 0 0) (sur' := sur) (by simp [strStep])]
+            match r1, h with
+            | a :: b :: c2 :: e4 :: r2, h =>
+              simp only [] at h
+              cases hv : hex4 a b c2 e4 with
+              | none => simp [hv] at h
+              | some v =>
+                cases hs : pushU16 sur v with
+                | none => simp [hv, hs] at h
+                | some s2 =>
+                  simp only [hv, hs] at h
+                  simp only [List.cons_append]
+                  rw [str_u4 q sur a b c2 e4 v s2 _ hv hs]
+                  exact ih s2 r2 h
+            | [], h => simp at h
+            | [_], h => simp at h
+            | [_, _], h => simp at h
+            | [_, _, _], h => simp at h
+          · simp only [hd, if_false] at h
+            by_cases hsur : sur = 0
+            · subst hsur
+              simp only [bne_self_eq_false, Bool.false_eq_true, if_false] at h
+              by_cases hx : d = 'x'
+              · subst hx
+                simp only [if_true] at h
+                rw [List.cons_append, str_go (es' := .x 0) (sur' := 0) (by simp [strStep])]
+                match r1, h with
+                | a :: b :: r2, h =>
+                  simp only [Bool.and_eq_true, Bool.or_eq_true, decide_eq_true_eq] at h
+                  simp only [List.cons_append]
+                  rw [str_go (es' := .x 1) (sur' := 0) (by
+                    rcases h.1.1 with ha | ha
+                    · simp [strStep, ha]
+                    · simp [strStep, ha])]
+                  rw [str_go (es' := .txt) (sur' := 0) (by simp [strStep, h.1.2])]
+                  exact ih 0 r2 h.2
+                | [], h => simp at h
+                | [_], h => simp at h
+              · simp only [hx, if_false] at h
+                by_cases ho : isOct d = true
+                · simp only [ho, if_true] at h
+                  rw [List.cons_append, str_go (es' := .oct 2 (octVal d)) (sur' := 0) (by
+                    simp [strStep, hd, hx, ho, octVal])]
+                  -- behind the first octal digit
+                  cases r1 with
+                  | nil => exact hclose _ (Or.inr ⟨_, _, rfl⟩)
+                  | cons a r2 =>
+                    simp only [] at h
+                    by_cases hoa : isOct a = true
+                    · simp only [hoa, if_true] at h
+                      have hle : octVal d * 8 + octVal a ≤ 255 := by
+                        have h1 : octVal d ≤ 7 := by
+                          simp only [isOct, Bool.and_eq_true, decide_eq_true_eq] at ho
+                          simp only [octVal]; have : '0'.toNat = 48 := rfl; have : '7'.toNat = 55 := rfl; omega
+                        have h2 : octVal a ≤ 7 := by
+                          simp only [isOct, Bool.and_eq_true, decide_eq_true_eq] at hoa
+                          simp only [octVal]; have : '0'.toNat = 48 := rfl; have : '7'.toNat = 55 := rfl; omega
+                        omega
+                      rw [List.cons_append, str_go (es' := .oct 1 (octVal d * 8 + octVal a)) (sur' := 0)
+                        (oct_step q 1 _ a hoa hle)]
+                      cases r2 with
+                      | nil => exact hclose _ (Or.inr ⟨_, _, rfl⟩)
+                      | cons b r3 =>
+                        simp only [] at h
+                        by_cases hob : isOct b = true
+                        · simp only [hob, if_true, Bool.and_eq_true, decide_eq_true_eq] at h
+                          rw [List.cons_append, str_go (es' := .oct 0 ((octVal d * 8 + octVal a) * 8 + octVal b)) (sur' := 0)
+                            (oct_step q 0 _ b hob h.1)]
+                          exact oct_done 0 _ r3 (Or.inl rfl) h.2
+                        · simp only [hob, Bool.false_eq_true, if_false] at h
+                          exact oct_done 1 _ (b :: r3) (Or.inr (by intro c hc; cases hc; simpa using hob)) h
+                    · simp only [hoa, Bool.false_eq_true, if_false] at h
+                      exact oct_done 2 _ (a :: r2) (Or.inr (by intro c hc; cases hc; simpa using hoa)) h
+                · simp only [ho, Bool.false_eq_true, if_false] at h
+                  rw [List.cons_append, str_go (es' := .txt) (sur' := 0) (by simp [strStep, hd, hx, ho])]
+                  exact ih 0 r1 h
+            · have : (sur != 0) = true := by simpa using hsur
+              simp [this] at h
+      · simp only [hc, if_false, Bool.and_eq_true, bne_iff_ne, ne_eq, beq_iff_eq] at h
+        obtain ⟨⟨hcq, hs0⟩, hr⟩ := h
+        subst hs0
+        rw [List.cons_append, str_go (es' := .txt) (sur' := 0) (by simp [strStep, strPlain_text hc hcq])]
+        exact ih 0 r hr
 
 theorem tok_str {e : List Char} {line : Bool} {bal : Int} (q : Char) (body rest : List Char)
-    (hq : q = '\'' ∨ q = '"') (hb : strBodyOk q false body = true)
+    (hq : q = '\'' ∨ q = '"') (hb : strBodyOk q 0 body = true)
     (hp : Passes e line bal q (body ++ [q] ++ rest)) :
     scanTag e line .top bal (q :: (body ++ [q]) ++ rest) = scanTag e line .top bal rest := by
-  have hq' : q ≠ '\\' := by rcases hq with rfl | rfl <;> decide
   have hw : isAsciiWs q = false := by rcases hq with rfl | rfl <;> decide
   rw [List.cons_append, top_token hp hw (dispatch_quote hq bal _)]
-  have := str_run (e := e) (line := line) (bal := bal) q hq' body rest false hb
+  have := str_run (e := e) (line := line) (bal := bal) q hq rest _ 0 body hb
   simpa [List.append_assoc] using this
 
 /-! #### operators -/
@@ -530,10 +680,10 @@ theorem interior_scan (e : List Char) (ts : List Tok) :
 
 /-- behind a well-formed interior the end delimiter (with its marker) is found, exactly there -/
 theorem interior_end_found {e : List Char} (he : headOk e = true) (ts : List Tok) (m : Mark) (x : List Char)
-    (h : interiorOk e 0 ts (m.src ++ (e ++ x)) = true) :
+    (h : interiorOk e 0 ts (m.src ++ (e ++ x)) = true) (hclose : closeOk e m x = true) :
     scanTag e false .top 0 (srcs ts ++ (m.src ++ (e ++ x))) = .found x m.ws := by
   rw [interior_scan e ts 0 _ h]
-  obtain ⟨c, t, rfl, h1, h2, h3, h4⟩ := headOk_cons he
+  obtain ⟨c, t, rfl, h1⟩ := headOk_cons he
   have hs : startsWith (c :: t) (c :: t ++ x) = true := startsWith_append_self _ _
   have hs' : startsWith (c :: t) (c :: (t ++ x)) = true := by simpa using hs
   have hd : (c :: (t ++ x)).drop (c :: t).length = x := by
@@ -541,10 +691,14 @@ theorem interior_end_found {e : List Char} (he : headOk e = true) (ts : List Tok
     simpa using this
   cases m with
   | none =>
+    have hno : ((c = '-' || c = '+') && startsWith (c :: t) (t ++ x)) = false := by
+      simp only [closeOk, bne_self_eq_false, Bool.false_or, List.cons_append, Bool.not_eq_true',
+        isMarkChar] at hclose
+      exact hclose
     simp only [Mark.src, Mark.ws, List.nil_append, List.cons_append]
     apply scanTag_done
     simp only [scanStep, tokCont, topStep, Bool.false_and, Bool.false_eq_true, if_false, h1, Bool.not_false,
-      Bool.true_and, beq_self_eq_true, h3, h4, decide_false, Bool.or_self, Bool.false_and, hs', if_true]
+      Bool.true_and, beq_self_eq_true, hno, hs', if_true]
     rw [hd]
   | minus =>
     simp only [Mark.src, Mark.ws, List.cons_append, List.nil_append]
